@@ -741,7 +741,7 @@ Print Assumptions C03_full_statement_declaration.
 
 (* ---- non-vacuity: one program per declaration rule; the premises of its constructor hold, and the model computes
    the prescribed diagnostics on a text of the program (evaluated, independently of the theorems) ---- *)
-Ltac bodies :=
+Ltac dfx_bodies :=
   unfold wt_bodies; cbn [pg_decls];
   repeat (apply Forall_cons;
           [split; [unfold has_entry; cbn [fst pd_name]; try exact I; vm_compute; discriminate
@@ -753,180 +753,180 @@ Ltac bodies :=
                           | injection Hl as <-;
                             first [vm_compute in Hr; discriminate Hr | cbn [pe_local pd_stmts]; st]]] |]);
   apply Forall_nil.
-Ltac main_fine := eexists; split; vm_compute; reflexivity.
-Ltac vc := vm_compute; reflexivity.
-Ltac df_rest := [> decls | vm_compute; reflexivity | main_fine | bodies | vm_compute; reflexivity].
-Ltac vd := vm_compute; discriminate.
-Definition p_main : adecl := DProc c0 c0 s_main c0 None c0 c0 [] SNil c0.
-Definition p_p : adecl := DProc c0 c0 s_p c0 None c0 c0 [] SNil c0.
-Definition s_foo := [102; 111; 111]. Definition s_y := [121].
-Definition vdecl (x : text) (t : atype) : avardecl := {| v_c1 := c0; v_c2 := c0; v_x := x; v_c3 := c0; v_t := t; v_c4 := c0 |}.
-Definition t_int := TName c0 s_int.
+Ltac dfx_mainok := eexists; split; vm_compute; reflexivity.
+Ltac dfx_vc := vm_compute; reflexivity.
+Ltac dfx_rest := [> decls | vm_compute; reflexivity | dfx_mainok | dfx_bodies | vm_compute; reflexivity].
+Ltac dfx_vd := vm_compute; discriminate.
+Definition dfx_main : adecl := DProc c0 c0 s_main c0 None c0 c0 [] SNil c0.
+Definition dfx_p : adecl := DProc c0 c0 s_p c0 None c0 c0 [] SNil c0.
+Definition s_dfoo := [102; 111; 111]. Definition s_dy := [121].
+Definition dfx_var (x : text) (t : atype) : avardecl := {| v_c1 := c0; v_c2 := c0; v_x := x; v_c3 := c0; v_t := t; v_c4 := c0 |}.
+Definition dfx_int := TName c0 s_int.
 
 (* UndefinedType, below an array type of a type declaration: v is entered as `array [3] of <unknown>` *)
-Definition d1 : aprog := {| a_decls := [DType c0 c0 s_v c0 (TArr c0 c0 c0 (LDec 3) c0 c0 (TName c0 s_foo)) c0; p_main]; a_ceof := c0 |}.
-Definition d1_tree : program := Eval vm_compute in expected d1.
-Definition d1_table : gtable := Eval vm_compute in table_of d1_tree.
-Example C03_ex_undefined_type : decl_fault_program d1_tree d1_table [er 8 9 (UndefinedType s_foo)].
+Definition dfx1 : aprog := {| a_decls := [DType c0 c0 s_v c0 (TArr c0 c0 c0 (LDec 3) c0 c0 (TName c0 s_dfoo)) c0; dfx_main]; a_ceof := c0 |}.
+Definition dfx1_tree : program := Eval vm_compute in expected dfx1.
+Definition dfx1_table : gtable := Eval vm_compute in built_table dfx1_tree.
+Example C03_ex_undefined_type : decl_fault_program dfx1_tree dfx1_table [berr 8 9 (UndefinedType s_dfoo)].
 Proof.
   eapply (DF_decl_eq _ _ []); [reflexivity | decls | ..].
-  { eapply FG_type_texpr; [reflexivity | vd | vc | reflexivity |]. apply FT_array. apply FT_undefined; [split; vc | vd]. }
-  all: df_rest.
+  { eapply FG_type_texpr; [reflexivity | dfx_vd | dfx_vc | reflexivity |]. apply FT_array. apply FT_undefined; [split; dfx_vc | dfx_vd]. }
+  all: dfx_rest.
 Qed.
 Example C03_ex_undefined_type_text :
-  diag_of "type v = array [3] of foo; proc main() { }" = Done [(22, 25, EBuild (UndefinedType s_foo))].
-Proof. vc. Qed.
-(* ... and through the theorem: the text is a layout of d1, so the diagnostics are the byte ranges of the prescribed ones *)
+  diag_of "type v = array [3] of foo; proc main() { }" = Done [(22, 25, EBuild (UndefinedType s_dfoo))].
+Proof. dfx_vc. Qed.
+(* ... and through the theorem: the text is a layout of dfx1, so the diagnostics are the byte ranges of the prescribed ones *)
 Example C03_ex_undefined_type_instance :
-  diag_of "type v = array [3] of foo; proc main() { }" = Done [(22, 25, EBuild (UndefinedType s_foo))].
+  diag_of "type v = array [3] of foo; proc main() { }" = Done [(22, 25, EBuild (UndefinedType s_dfoo))].
 Proof.
   pose (toks := match lex (str "type v = array [3] of foo; proc main() { }") with Some l => l | None => [] end).
-  apply (C03_single_declaration_fault_text d1 _ d1_table _ eq_refl C03_ex_undefined_type toks); vc.
+  apply (C03_single_declaration_fault_text dfx1 _ dfx1_table _ eq_refl C03_ex_undefined_type toks); dfx_vc.
 Qed.
 
 (* NotAType, in a local variable: the type expression sees the variable x *)
-Definition d2 : aprog :=
-  {| a_decls := [DProc c0 c0 s_main c0 None c0 c0 [vdecl s_x t_int; vdecl s_y (TName c0 s_x)] SNil c0]; a_ceof := c0 |}.
-Definition d2_tree : program := Eval vm_compute in expected d2.
-Definition d2_table : gtable := Eval vm_compute in table_of d2_tree.
-Example C03_ex_not_a_type : decl_fault_program d2_tree d2_table [er 13 14 (NotAType s_x)].
+Definition dfx2 : aprog :=
+  {| a_decls := [DProc c0 c0 s_main c0 None c0 c0 [dfx_var s_x dfx_int; dfx_var s_dy (TName c0 s_x)] SNil c0]; a_ceof := c0 |}.
+Definition dfx2_tree : program := Eval vm_compute in expected dfx2.
+Definition dfx2_table : gtable := Eval vm_compute in built_table dfx2_tree.
+Example C03_ex_not_a_type : decl_fault_program dfx2_tree dfx2_table [berr 13 14 (NotAType s_x)].
 Proof.
   eapply (DF_decl_eq _ _ []); [reflexivity | decls | ..].
-  { eapply FG_proc_var; [reflexivity | vc | cbn [pd_params]; pars |]. cbn [pd_vars]. eapply (FVS _ _ _ [_]); [vars | | vars].
-    eapply FVD_type; [|vc]. eapply FT_not_a_type; [solve_binds | intros te; discriminate | vd]. }
-  all: df_rest.
+  { eapply FG_proc_var; [reflexivity | dfx_vc | cbn [pd_params]; pars |]. cbn [pd_vars]. eapply (FVS _ _ _ [_]); [vars | | vars].
+    eapply FVD_type; [|dfx_vc]. eapply FT_not_a_type; [solve_binds | intros te; discriminate | dfx_vd]. }
+  all: dfx_rest.
 Qed.
 Example C03_ex_not_a_type_text : diag_of "proc main() { var x: int; var y: x; }" = Done [(33, 34, EBuild (NotAType s_x))].
-Proof. vc. Qed.
+Proof. dfx_vc. Qed.
 
 (* RedeclarationAsType *)
-Definition d3 : aprog := {| a_decls := [DType c0 c0 s_v c0 t_int c0; DType c0 c0 s_v c0 t_int c0; p_main]; a_ceof := c0 |}.
-Definition d3_tree : program := Eval vm_compute in expected d3.
-Definition d3_table : gtable := Eval vm_compute in table_of d3_tree.
-Example C03_ex_redeclaration_as_type : decl_fault_program d3_tree d3_table [er 6 7 (RedeclarationAsType s_v)].
+Definition dfx3 : aprog := {| a_decls := [DType c0 c0 s_v c0 dfx_int c0; DType c0 c0 s_v c0 dfx_int c0; dfx_main]; a_ceof := c0 |}.
+Definition dfx3_tree : program := Eval vm_compute in expected dfx3.
+Definition dfx3_table : gtable := Eval vm_compute in built_table dfx3_tree.
+Example C03_ex_redeclaration_as_type : decl_fault_program dfx3_tree dfx3_table [berr 6 7 (RedeclarationAsType s_v)].
 Proof.
   eapply (DF_decl_eq _ _ [_]); [reflexivity | decls | ..].
-  { eapply FG_type_redeclared; [reflexivity | vd | vc | reflexivity | den | vd]. }
-  all: df_rest.
+  { eapply FG_type_redeclared; [reflexivity | dfx_vd | dfx_vc | reflexivity | den | dfx_vd]. }
+  all: dfx_rest.
 Qed.
 Example C03_ex_redeclaration_as_type_text :
   diag_of "type v = int; type v = int; proc main() { }" = Done [(19, 20, EBuild (RedeclarationAsType s_v))].
-Proof. vc. Qed.
+Proof. dfx_vc. Qed.
 
 (* MustBeAReferenceParameter *)
-Definition d4 : aprog :=
-  {| a_decls := [DProc c0 c0 s_p c0 (Some (PVal c0 s_a c0 (TArr c0 c0 c0 (LDec 2) c0 c0 t_int), [])) c0 c0 [] SNil c0; p_main];
+Definition dfx4 : aprog :=
+  {| a_decls := [DProc c0 c0 s_p c0 (Some (PVal c0 s_a c0 (TArr c0 c0 c0 (LDec 2) c0 c0 dfx_int), [])) c0 c0 [] SNil c0; dfx_main];
      a_ceof := c0 |}.
-Definition d4_tree : program := Eval vm_compute in expected d4.
-Definition d4_table : gtable := Eval vm_compute in table_of d4_tree.
-Example C03_ex_must_be_a_reference_parameter : decl_fault_program d4_tree d4_table [er 3 4 (MustBeAReferenceParameter s_a)].
+Definition dfx4_tree : program := Eval vm_compute in expected dfx4.
+Definition dfx4_table : gtable := Eval vm_compute in built_table dfx4_tree.
+Example C03_ex_must_be_a_reference_parameter : decl_fault_program dfx4_tree dfx4_table [berr 3 4 (MustBeAReferenceParameter s_a)].
 Proof.
   eapply (DF_decl_eq _ _ []); [reflexivity | decls | ..].
-  { eapply FG_proc_param; [reflexivity | vc | | cbn [pd_vars]; vars]. cbn [pd_params]. eapply (FPS _ _ _ []); [pars | | pars].
-    eapply FP_must_be_reference; [den | eexists; eexists; eexists; reflexivity | vc | vd]. }
-  all: df_rest.
+  { eapply FG_proc_param; [reflexivity | dfx_vc | | cbn [pd_vars]; vars]. cbn [pd_params]. eapply (FPS _ _ _ []); [pars | | pars].
+    eapply FP_must_be_reference; [den | eexists; eexists; eexists; reflexivity | dfx_vc | dfx_vd]. }
+  all: dfx_rest.
 Qed.
 Example C03_ex_must_be_a_reference_parameter_text :
   diag_of "proc p(a: array [2] of int) { } proc main() { }" = Done [(7, 8, EBuild (MustBeAReferenceParameter s_a))].
-Proof. vc. Qed.
+Proof. dfx_vc. Qed.
 
 (* RedeclarationAsProcedure *)
-Definition d5 : aprog := {| a_decls := [p_p; p_p; p_main]; a_ceof := c0 |}.
-Definition d5_tree : program := Eval vm_compute in expected d5.
-Definition d5_table : gtable := Eval vm_compute in table_of d5_tree.
-Example C03_ex_redeclaration_as_procedure : decl_fault_program d5_tree d5_table [er 7 8 (RedeclarationAsProcedure s_p)].
+Definition dfx5 : aprog := {| a_decls := [dfx_p; dfx_p; dfx_main]; a_ceof := c0 |}.
+Definition dfx5_tree : program := Eval vm_compute in expected dfx5.
+Definition dfx5_table : gtable := Eval vm_compute in built_table dfx5_tree.
+Example C03_ex_redeclaration_as_procedure : decl_fault_program dfx5_tree dfx5_table [berr 7 8 (RedeclarationAsProcedure s_p)].
 Proof.
   eapply (DF_decl_eq _ _ [_]); [reflexivity | decls | ..].
-  { eapply FG_proc_redeclared; [reflexivity | vc | cbn [pd_params]; pars | cbn [pd_vars]; vars | vd]. }
-  all: df_rest.
+  { eapply FG_proc_redeclared; [reflexivity | dfx_vc | cbn [pd_params]; pars | cbn [pd_vars]; vars | dfx_vd]. }
+  all: dfx_rest.
 Qed.
 Example C03_ex_redeclaration_as_procedure_text :
   diag_of "proc p() { } proc p() { } proc main() { }" = Done [(18, 19, EBuild (RedeclarationAsProcedure s_p))].
-Proof. vc. Qed.
+Proof. dfx_vc. Qed.
 
 (* RedeclarationAsParameter: the redeclared parameter still counts, the call passes two arguments *)
-Definition d6 : aprog :=
-  {| a_decls := [DProc c0 c0 s_p c0 (Some (PVal c0 s_a c0 t_int, [(c0, PVal c0 s_a c0 t_int)])) c0 c0 [] SNil c0;
+Definition dfx6 : aprog :=
+  {| a_decls := [DProc c0 c0 s_p c0 (Some (PVal c0 s_a c0 dfx_int, [(c0, PVal c0 s_a c0 dfx_int)])) c0 c0 [] SNil c0;
                  DProc c0 c0 s_main c0 None c0 c0 []
                    (SCons (SCal c0 s_p c0 (Some (e_f (lit 1), [(c0, e_f (lit 2))])) c0 c0) SNil) c0];
      a_ceof := c0 |}.
-Definition d6_tree : program := Eval vm_compute in expected d6.
-Definition d6_table : gtable := Eval vm_compute in table_of d6_tree.
-Example C03_ex_redeclaration_as_parameter : decl_fault_program d6_tree d6_table [er 7 8 (RedeclarationAsParameter s_a)].
+Definition dfx6_tree : program := Eval vm_compute in expected dfx6.
+Definition dfx6_table : gtable := Eval vm_compute in built_table dfx6_tree.
+Example C03_ex_redeclaration_as_parameter : decl_fault_program dfx6_tree dfx6_table [berr 7 8 (RedeclarationAsParameter s_a)].
 Proof.
   eapply (DF_decl_eq _ _ []); [reflexivity | decls | ..].
-  { eapply FG_proc_param; [reflexivity | vc | | cbn [pd_vars]; vars]. cbn [pd_params]. eapply (FPS _ _ _ [_]); [pars | | pars].
-    eapply FP_redeclared; [den | no_array | vc | vd]. }
-  all: df_rest.
+  { eapply FG_proc_param; [reflexivity | dfx_vc | | cbn [pd_vars]; vars]. cbn [pd_params]. eapply (FPS _ _ _ [_]); [pars | | pars].
+    eapply FP_redeclared; [den | no_array | dfx_vc | dfx_vd]. }
+  all: dfx_rest.
 Qed.
 Example C03_ex_redeclaration_as_parameter_text :
   diag_of "proc p(a: int, a: int) { } proc main() { p(1, 2); }" = Done [(15, 16, EBuild (RedeclarationAsParameter s_a))].
-Proof. vc. Qed.
+Proof. dfx_vc. Qed.
 
 (* RedeclarationAsVariable *)
-Definition d7 : aprog :=
-  {| a_decls := [DProc c0 c0 s_main c0 None c0 c0 [vdecl s_x t_int; vdecl s_x t_int] SNil c0]; a_ceof := c0 |}.
-Definition d7_tree : program := Eval vm_compute in expected d7.
-Definition d7_table : gtable := Eval vm_compute in table_of d7_tree.
-Example C03_ex_redeclaration_as_variable : decl_fault_program d7_tree d7_table [er 11 12 (RedeclarationAsVariable s_x)].
+Definition dfx7 : aprog :=
+  {| a_decls := [DProc c0 c0 s_main c0 None c0 c0 [dfx_var s_x dfx_int; dfx_var s_x dfx_int] SNil c0]; a_ceof := c0 |}.
+Definition dfx7_tree : program := Eval vm_compute in expected dfx7.
+Definition dfx7_table : gtable := Eval vm_compute in built_table dfx7_tree.
+Example C03_ex_redeclaration_as_variable : decl_fault_program dfx7_tree dfx7_table [berr 11 12 (RedeclarationAsVariable s_x)].
 Proof.
   eapply (DF_decl_eq _ _ []); [reflexivity | decls | ..].
-  { eapply FG_proc_var; [reflexivity | vc | cbn [pd_params]; pars |]. cbn [pd_vars]. eapply (FVS _ _ _ [_]); [vars | | vars].
-    eapply FVD_redeclared; [den | vc | vd]. }
-  all: df_rest.
+  { eapply FG_proc_var; [reflexivity | dfx_vc | cbn [pd_params]; pars |]. cbn [pd_vars]. eapply (FVS _ _ _ [_]); [vars | | vars].
+    eapply FVD_redeclared; [den | dfx_vc | dfx_vd]. }
+  all: dfx_rest.
 Qed.
 Example C03_ex_redeclaration_as_variable_text :
   diag_of "proc main() { var x: int; var x: int; }" = Done [(30, 31, EBuild (RedeclarationAsVariable s_x))].
-Proof. vc. Qed.
+Proof. dfx_vc. Qed.
 
 (* MainIsMissing: the empty range at the end of the first token `proc` *)
-Definition d8 : aprog := {| a_decls := [p_p]; a_ceof := c0 |}.
-Definition d8_tree : program := Eval vm_compute in expected d8.
-Definition d8_table : gtable := Eval vm_compute in table_of d8_tree.
-Example C03_ex_main_is_missing : decl_fault_program d8_tree d8_table [mkerr_t (0%nat, 0%nat) (EBuild MainIsMissing)].
-Proof. eapply DF_main_missing; [unfold d8_tree; cbn [pg_decls]; decls | vc | vc | bodies]. Qed.
+Definition dfx8 : aprog := {| a_decls := [dfx_p]; a_ceof := c0 |}.
+Definition dfx8_tree : program := Eval vm_compute in expected dfx8.
+Definition dfx8_table : gtable := Eval vm_compute in built_table dfx8_tree.
+Example C03_ex_main_is_missing : decl_fault_program dfx8_tree dfx8_table [mkerr_t (0%nat, 0%nat) (EBuild MainIsMissing)].
+Proof. eapply DF_main_missing; [unfold dfx8_tree; cbn [pg_decls]; decls | dfx_vc | dfx_vc | dfx_bodies]. Qed.
 Example C03_ex_main_is_missing_text : diag_of "proc p() { }" = Done [(4, 4, EBuild MainIsMissing)].
-Proof. vc. Qed.
+Proof. dfx_vc. Qed.
 
 (* MainIsNotAProcedure: without a procedure main (MainIsMissing as well), and next to one (one diagnostic) *)
-Definition d9 : aprog := {| a_decls := [DType c0 c0 s_main c0 t_int c0]; a_ceof := c0 |}.
-Definition d9_tree : program := Eval vm_compute in expected d9.
-Definition d9_table : gtable := Eval vm_compute in table_of d9_tree.
+Definition dfx9 : aprog := {| a_decls := [DType c0 c0 s_main c0 dfx_int c0]; a_ceof := c0 |}.
+Definition dfx9_tree : program := Eval vm_compute in expected dfx9.
+Definition dfx9_table : gtable := Eval vm_compute in built_table dfx9_tree.
 Example C03_ex_main_is_not_a_procedure :
-  decl_fault_program d9_tree d9_table [mkerr_t (0%nat, 0%nat) (EBuild MainIsMissing); er 1 2 MainIsNotAProcedure].
+  decl_fault_program dfx9_tree dfx9_table [mkerr_t (0%nat, 0%nat) (EBuild MainIsMissing); berr 1 2 MainIsNotAProcedure].
 Proof.
   eapply (DF_main_type _ _ [] _ 0%nat [] _ _ (x_ident 1 [] s_main));
-    [reflexivity | decls | reflexivity | reflexivity | reflexivity | den | vd | decls | vc | vc | bodies].
+    [reflexivity | decls | reflexivity | reflexivity | reflexivity | den | dfx_vd | decls | dfx_vc | dfx_vc | dfx_bodies].
 Qed.
 Example C03_ex_main_is_not_a_procedure_text :
   diag_of "type main = int;" = Done [(4, 4, EBuild MainIsMissing); (5, 9, EBuild MainIsNotAProcedure)].
-Proof. vc. Qed.
-Definition d9b : aprog := {| a_decls := [p_main; DType c0 c0 s_main c0 t_int c0]; a_ceof := c0 |}.
-Definition d9b_tree : program := Eval vm_compute in expected d9b.
-Definition d9b_table : gtable := Eval vm_compute in table_of d9b_tree.
-Example C03_ex_main_is_not_a_procedure_only : decl_fault_program d9b_tree d9b_table [er 7 8 MainIsNotAProcedure].
+Proof. dfx_vc. Qed.
+Definition dfx9b : aprog := {| a_decls := [dfx_main; DType c0 c0 s_main c0 dfx_int c0]; a_ceof := c0 |}.
+Definition dfx9b_tree : program := Eval vm_compute in expected dfx9b.
+Definition dfx9b_table : gtable := Eval vm_compute in built_table dfx9b_tree.
+Example C03_ex_main_is_not_a_procedure_only : decl_fault_program dfx9b_tree dfx9b_table [berr 7 8 MainIsNotAProcedure].
 Proof.
   eapply (DF_decl_eq _ _ [_]); [reflexivity | decls | ..].
-  { eapply FG_type_main; [reflexivity | reflexivity | reflexivity | den | vd]. }
-  all: df_rest.
+  { eapply FG_type_main; [reflexivity | reflexivity | reflexivity | den | dfx_vd]. }
+  all: dfx_rest.
 Qed.
 Example C03_ex_main_is_not_a_procedure_only_text :
   diag_of "proc main() { } type main = int;" = Done [(21, 25, EBuild MainIsNotAProcedure)].
-Proof. vc. Qed.
+Proof. dfx_vc. Qed.
 
 (* MainMustNotHaveParameters (the text is C03_ex_text_fault_main above, with t for v) *)
-Definition d10 : aprog :=
-  {| a_decls := [DType c0 c0 s_v c0 t_int c0; DProc c0 c0 s_main c0 (Some (PVal c0 s_a c0 (TName c0 s_v), [])) c0 c0 [] SNil c0];
+Definition dfx10 : aprog :=
+  {| a_decls := [DType c0 c0 s_v c0 dfx_int c0; DProc c0 c0 s_main c0 (Some (PVal c0 s_a c0 (TName c0 s_v), [])) c0 c0 [] SNil c0];
      a_ceof := c0 |}.
-Definition d10_tree : program := Eval vm_compute in expected d10.
-Definition d10_table : gtable := Eval vm_compute in table_of d10_tree.
-Example C03_ex_main_must_not_have_parameters : decl_fault_program d10_tree d10_table [er 6 7 MainMustNotHaveParameters].
+Definition dfx10_tree : program := Eval vm_compute in expected dfx10.
+Definition dfx10_table : gtable := Eval vm_compute in built_table dfx10_tree.
+Example C03_ex_main_must_not_have_parameters : decl_fault_program dfx10_tree dfx10_table [berr 6 7 MainMustNotHaveParameters].
 Proof.
   eapply (DF_main_params _ _ [_] _ 5%nat [] _ (x_ident 1 [] s_main));
-    [reflexivity | reflexivity | reflexivity | discriminate | reflexivity | vd
-     | unfold d10_tree; cbn [pg_decls]; decls | vc | bodies].
+    [reflexivity | reflexivity | reflexivity | discriminate | reflexivity | dfx_vd
+     | unfold dfx10_tree; cbn [pg_decls]; decls | dfx_vc | dfx_bodies].
 Qed.
 
 (* the examples are instances of the statement: `declaration_fault` holds of them *)
-Example C03_ex_declaration_fault : declaration_fault d6 (EBuild (RedeclarationAsParameter s_a)) (7%nat, 8%nat).
-Proof. exists d6_table, (er 7 8 (RedeclarationAsParameter s_a)). repeat split; [exact C03_ex_redeclaration_as_parameter | exact (le_n 8)]. Qed.
+Example C03_ex_declaration_fault : declaration_fault dfx6 (EBuild (RedeclarationAsParameter s_a)) (7%nat, 8%nat).
+Proof. exists dfx6_table, (berr 7 8 (RedeclarationAsParameter s_a)). repeat split; [exact C03_ex_redeclaration_as_parameter | exact (le_n 8)]. Qed.
